@@ -175,7 +175,7 @@ def c05_cases(tier, seed):
     cs += gens.g_pieces_attr_in_entity(2 if q else 3)
     cs += gens.g_pieces_attr_after(1 if q else 2)
     cs += [c for c in gens.g_entity_names() + gens.g_entity_value_chars() if "expect_attr" in c.meta]
-    cs += gens.g_dup_attr_wide(flags="c")
+    cs += gens.g_dup_attr_wide(flags="c") + gens.g_many_small_expansions(flags="c")
     cs += gens.g_cst(seed, 800 if q else 6000, flags="nc", renderings=2, hoist=False)
     # attribute lists interleaved with declarations, 0..40 attributes
     rnd = random.Random(seed + 1)
@@ -290,7 +290,7 @@ def c07_cases(tier, seed):
     cs.append(Case("<!DOCTYPE r [<!ENTITY % x 'PE'><!ENTITY x 'GE'>]><r>&x;</r>", "nc", True,
                    meta={"gen": "pe-not-ge", "expect_content": ["Q 1 - x72", "X 2 " + spec.hexs("GE")]}))
     cs += gens.g_ent_nested_elems(flags="nc")
-    cs += gens.g_ns_entity_sibling(flags="nc")
+    cs += gens.g_ns_entity_sibling(flags="nc") + [Case(c.data, "nc", True, meta={"gen": c.meta["gen"], "wellformed": c.meta["wellformed"]}) for c in gens.g_many_small_expansions()]
     cs += [Case(c.data, "nc", True, meta={"gen": c.meta["gen"], "wellformed": "character / predefined references are not entity expansions"})
            for c in gens.g_ent_charrefs_free(flags="c") if c.meta.get("k") in (255, 256, 300) and c.meta.get("ref") in ("&amp;", "&#x41;")]
     # the equivalence also holds under a nodes_limit that the inline document just meets: text arriving in several
@@ -577,7 +577,7 @@ def c09_cases(tier, seed):
     cs += gens.g_ent_fanout_attr_leaf([1, 2, 3, 4, 6, 10, 15, 16], [1, 2, 3, 4], flags="c")
     cs += gens.g_ent_chains(14, flags="c")
     cs += gens.g_ent_empty(flags="c") + gens.g_ent_charrefs_free(flags="c")
-    cs += gens.g_ent_many_decls(flags="c", dists=(256, 512) if q else (256, 512, 65536))
+    cs += gens.g_ent_many_decls(flags="c", dists=(256, 512) if q else (256, 512, 65536)) + gens.g_many_small_expansions(flags="c")
     cs += gens.g_ent_fanout_sep([2, 3, 4, 8, 15], [1, 2, 3, 6] if q else [1, 2, 3, 4, 6, 8], flags="c")
     cs += gens.g_ent_toplevel(1000 if q else 100000, flags="c")
     cs += gens.g_ent_random(seed, 1500 if q else 15000, flags="c")
